@@ -54,6 +54,8 @@ def burg_case(draw, dtype="any", extra=None):
     if x["kind"] in ("noise", "ar") and draw(st.integers(0, 7)) == 7:
         # zero-stuffed record (up-sampler output): every odd-lag product cancels exactly, k_1 = k_3 = ... = 0.0
         x["zero_stuff"] = draw(st.sampled_from([2, 2, 3]))
+    if x["complex"] and x["kind"] in ("noise", "ar", "tones") and draw(st.integers(0, 7)) == 7:
+        x["tiny_imag"] = draw(st.sampled_from([1e-7, 1e-6, 1e-5, 3e-7]))
     if x["kind"] == "tones" and x.get("noise", 0.0) < 0.01:
         # "tones in noise": keep the prediction error non-degenerate by construction
         x["noise"] = draw(st.sampled_from([0.01, 0.1, 1.0]))
@@ -397,4 +399,10 @@ from vlib import lifecheck as _life   # noqa: E402
          "bit-identical to what it was, and after p.data *= g, p.data -= mean or the construction buffer refilled in place and "
          "assigned again equals that of a fresh object on the samples now held: pburg")
 def c13_life(ctx, case):
+    _life.body(ctx, case)
+
+
+@sub("C13.life_grid", enum=_life.life_enum(['pburg']), exhaustive=True, shards_quick=2, shards_thorough=2,
+     doc="the same on a fixed grid: every action x real/complex x default/centred layout for pburg")
+def c13_life_grid(ctx, case):
     _life.body(ctx, case)
